@@ -157,6 +157,7 @@ Definition prog_okN (N : nat) (own : nat -> nat) (t : nat) (p : list op) : Prop 
 Record fibg (N : nat) (s : st) (f : nat) : Prop := {
   n_once : Hcn (thr s) (nthr s) f + Qcn (dq s) (nthr s) f <= 1;
   n_queued : 1 <= Qcn (dq s) (nthr s) f -> (2 <= fstt s f)%Z;
+  n_held : 1 <= Hcn (thr s) (nthr s) f -> (1 <= fstt s f)%Z;
   n_placed : (1 <= fstt s f)%Z -> wqz s f = 0%Z -> 1 <= Hcn (thr s) (nthr s) f + Qcn (dq s) (nthr s) f;
   n_wq : wqz s f = 1%Z -> fstt s f = 3%Z /\ Hcn (thr s) (nthr s) f + Qcn (dq s) (nthr s) f = 0;
   n_wb : (0 <= wqz s f <= 1)%Z;
@@ -322,7 +323,7 @@ Lemma invN_mk N own s t s' T' :
   InvN N own s'.
 Proof.
   intros I0 Ht En Ets Eth Hoth Hfr Hto Hfib Hp Hl.
-  constructor; auto; rewrite En, Eth; intros u Hu.
+  constructor; auto; rewrite ?En; intros u Hu; rewrite ?Eth.
   - destruct (Nat.eq_dec u t) as [->|E]; [auto|]. destruct (Hoth u E Hu) as (A & _). rewrite A. apply (m_from N own s I0 u Hu).
   - destruct (Nat.eq_dec u t) as [->|E]; [rewrite upd_same; auto|]. rewrite upd_other by auto.
     destruct (Hoth u E Hu) as (A & B & _). rewrite A, B. apply (m_to N own s I0 u Hu).
@@ -332,3 +333,275 @@ Proof.
     destruct (Hoth u E Hu) as (A & B & C & D).
     apply (lok_stable N own s s' u _ D A B C). apply (m_loc N own s I0 u Hu).
 Qed.
+
+(* ---------------- load_balance: the scan steals at most one fiber per step,
+   from the far end of a deque of another thread ---------------- *)
+Lemma lb_scan_spec : forall fuel dqs n i iend lc ms rc dqs' r,
+  lb_scan fuel dqs n i iend lc ms rc = (dqs', r) ->
+  (r = None /\ dqs' = dqs) \/
+  (exists i' lc' rc' ms' x l,
+     r = Some (i', lc', rc', ms', x) /\ i <= i' < iend /\
+     dqs (qid (i' mod (2 * n))) = l ++ [x] /\ dqs' = upd dqs (qid (i' mod (2 * n))) l).
+Proof.
+  induction fuel as [|fu IH]; intros dqs n i iend lc ms rc dqs' r H; cbn [lb_scan] in H.
+  - inversion H; auto.
+  - destruct (Nat.leb_spec iend i) as [Hle|Hlt]; [inversion H; auto|].
+    assert (Hrec : forall rc0, lb_scan fu dqs n (S i) iend lc ms rc0 = (dqs', r) ->
+              (r = None /\ dqs' = dqs) \/
+              (exists i' lc' rc' ms' x l,
+                 r = Some (i', lc', rc', ms', x) /\ i <= i' < iend /\
+                 dqs (qid (i' mod (2 * n))) = l ++ [x] /\ dqs' = upd dqs (qid (i' mod (2 * n))) l)).
+    { intros rc0 H0. destruct (IH _ _ _ _ _ _ _ _ _ H0) as [A|(i' & lc' & rc' & ms' & x & l & A & B & C & D)]; auto.
+      right. exists i', lc', rc', ms', x, l. repeat split; auto; lia. }
+    destruct (_ && _) in H; [|apply (Hrec _ H)].
+    destruct (rev (dqs (qid (i mod (2 * n))))) as [|x rest] eqn:Er; [apply (Hrec _ H)|].
+    inversion H; subst. right.
+    exists i, lc, (match rc with Some r0 => r0 | None => length (dqs (qid (i mod (2 * n)))) end), ms, x, (rev rest).
+    repeat split; auto; try lia.
+    rewrite <- (rev_involutive (dqs (qid (i mod (2 * n))))), Er. reflexivity.
+Qed.
+
+(* the scanned deque is one of another thread *)
+Lemma scan_deque t n i : t < n -> 2 * (t + 1) <= i < lb_iend t n ->
+  1 <= qid (i mod (2 * n)) <= 2 * n /\ qid (i mod (2 * n)) <> 2 * t + 1 /\ qid (i mod (2 * n)) <> 2 * t + 2.
+Proof.
+  intros Ht [Hlo Hhi]. unfold lb_iend in Hhi. unfold qid.
+  assert (Hn : 2 * n <> 0) by lia.
+  pose proof (Nat.mod_upper_bound i (2 * n) Hn) as Hm.
+  destruct (Nat.lt_ge_cases i (2 * n)) as [Hs|Hb].
+  - rewrite Nat.mod_small by auto. lia.
+  - assert (E : i mod (2 * n) = i - 2 * n).
+    { replace i with ((i - 2 * n) + 1 * (2 * n)) at 1 by lia. rewrite Nat.mod_add by auto.
+      apply Nat.mod_small. lia. }
+    rewrite E. lia.
+Qed.
+
+(* projections of the states built by step *)
+Lemma T0N_set_thr s t T' : thr (set_thr s t T') = upd (thr s) t T'. Proof. reflexivity. Qed.
+
+Ltac neqN :=
+  repeat match goal with
+  | H : context [Nat.eqb ?a ?b] |- _ =>
+      let E := fresh "E" in destruct (Nat.eqb_spec a b) as [E|E]; [try (is_var a; subst a); try (is_var b; subst b)|]
+  | |- context [Nat.eqb ?a ?b] =>
+      let E := fresh "E" in destruct (Nat.eqb_spec a b) as [E|E]; [try (is_var a; subst a); try (is_var b; subst b)|]
+  end.
+
+(* ---------------- one step of thread t preserves the invariant ---------------- *)
+(* obligations of invN_mk about the other threads, for the usual shapes of the new state *)
+Ltac oth_tac I0 Ht K :=
+  let u := fresh "u" in let Hne := fresh "Hne" in let Hu := fresh "Hu" in
+  intros u Hne Hu;
+  let D := fresh "D" in pose proof (dq_other _ _ _ _ u I0 Ht Hu Hne) as D;
+  split; [cbn [sfrom set_thr set_fs set_wq set_dq set_from set_to]; rewrite ?upd_other by auto; reflexivity|];
+  split; [cbn [sto set_thr set_fs set_wq set_dq set_from set_to]; rewrite ?upd_other by auto; reflexivity|];
+  split; [cbn [dq set_thr set_fs set_wq set_dq set_from set_to]; rewrite ?upd_other by lia; auto|];
+  cbn [fstt set_thr set_fs set_wq set_dq set_from set_to]; K u Hne Hu.
+
+Ltac hcn_eq Ht :=
+  match goal with
+  | |- context [Hcn (upd (thr ?s) ?t ?T') ?n ?g] =>
+      let E := fresh "EH" in pose proof (Hcn_upd (thr s) n t T' g Ht) as E
+  end.
+Ltac qcn_eq :=
+  repeat match goal with
+  | |- context [Qcn (upd ?dqs ?d ?l) ?n ?g] =>
+      lazymatch goal with
+      | _ : Qcn (upd dqs d l) n g + _ = _ |- _ => fail
+      | _ => let E := fresh "EQ" in
+             assert (E : Qcn (upd dqs d l) n g + cnt (dqs d) g = Qcn dqs n g + cnt l g)
+               by (apply Qcn_upd; cbn [nthr]; lia)
+      end
+  end.
+
+(* the per-fiber goal after a step: pose the count equations, expand, decide *)
+Ltac fibN2 Hfib Ht Hh Hh' g :=
+  let H := fresh "Hg" in pose proof (Hfib g) as H; destruct H;
+  constructor;
+  rewrite ?wqz_set_thr, ?wqz_set_wq, ?wqz_set_fs, ?wqz_set_dq, ?wqz_set_from, ?wqz_set_to;
+  cbn [thr nthr dq fstt set_thr set_fs set_wq set_dq set_from set_to];
+  try hcn_eq Ht; try rewrite Hh in *; try rewrite Hh' in *; qcn_eq;
+  unfold runN, kokN, klb, hok in *;
+  repeat match goal with H : context [held] |- _ => progress (unfold held in H; cbn [pc cur with_pc] in H) end;
+  cbn [cnt] in *; rewrite ?cnt_opt in *; unfold upd in *; neqN; cbv iota in *; try lia.
+
+Ltac fibN Hfib Ht Hh g := fibN2 Hfib Ht Hh I g.
+Ltac mkN N own s t I0 Ht :=
+  match goal with |- InvN _ _ (set_thr _ _ ?T') => apply (invN_mk N own s t _ T' I0 Ht) end.
+
+Section StepN.
+  Variables (N : nat) (own : nat -> nat) (s : st) (t : nat).
+  Hypothesis I0 : InvN N own s.
+  Hypothesis Ht : t < nthr s.
+
+  Let Hts := m_ts N own s I0.
+  Let Hfrom := m_from N own s I0 t Ht.
+  Let Hfib := m_fib N own s I0.
+  Let Hprog := m_prog N own s I0 t Ht.
+  Let Hloc := m_loc N own s I0 t Ht.
+
+  Lemma Hto' : (forall k tmp, pc (thr s t) <> PN5 k tmp) -> sto s t = 4 * t + 3 - sfrom s t.
+  Proof. apply (m_to N own s I0 t Ht). Qed.
+
+  (* the step only changes the stepping thread's record (and nothing the others can see) *)
+  Lemma inv_thr_only T' :
+    (forall k tmp, pc T' <> PN5 k tmp) -> (forall k tmp, pc (thr s t) <> PN5 k tmp) ->
+    held T' = held (thr s t) -> prog_okN N own t (prog T') -> lokN N own s t T' ->
+    InvN N own (set_thr s t T').
+  Proof.
+    intros Hn5 Hn5' Hh Hp Hl.
+    apply (invN_mk N own s t (set_thr s t T') T' I0 Ht); auto.
+    - oth_tac I0 Ht ltac:(fun u Hne Hu => apply (keeps_same N own s u (thr s u)); apply (m_loc N own s I0 u Hu)).
+    - intros _. apply Hto'; auto.
+    - intros g. pose proof (Hfib g) as []. constructor;
+        cbn [thr nthr dq fstt set_thr]; rewrite ?wqz_set_thr; auto;
+        pose proof (Hcn_upd (thr s) (nthr s) t T' g Ht) as E; rewrite Hh in E;
+        try (intros; lia); lia.
+  Qed.
+
+  (* ... and the call finishes: the thread starts its next call with current fiber c *)
+  Lemma inv_finish_only c v :
+    (forall k tmp, pc (thr s t) <> PN5 k tmp) ->
+    held (thr s t) = opt c -> runN s c ->
+    InvN N own (set_thr s t (snd (finish t (thr s t) c v))).
+  Proof.
+    intros Hn5 Hh Hr.
+    destruct (finish_specN N own s t (thr s t) c v Hprog Hr) as (Hc & Hp' & Hl & Hh' & Hs).
+    apply inv_thr_only; auto.
+    - apply startpc_not_PN5; auto.
+    - congruence.
+  Qed.
+
+  Lemma stepN_PSpawnR f : pc (thr s t) = PSpawnR f -> InvN N own (fst (step s t)).
+  Proof.
+    intros Hpc. unfold step. rewrite Hpc.
+    pose proof Hloc as L. unfold lokN in L. rewrite Hpc in L. destruct L as (Hr & Hf & Ho).
+    assert (Hh : held (thr s t) = opt (cur (thr s t))) by (unfold held; rewrite Hpc; reflexivity).
+    destruct (Z.eqb_spec (fstt s f) 0) as [E|E].
+    - cbn [fst]. apply inv_thr_only; auto; try (rewrite Hpc; discriminate); try discriminate.
+      unfold lokN; cbn. auto.
+    - rewrite fst_let_finish. apply inv_finish_only; auto. rewrite Hpc; discriminate.
+  Qed.
+
+  Lemma stepN_PSpawnW f : pc (thr s t) = PSpawnW f -> InvN N own (fst (step s t)).
+  Proof.
+    intros Hpc. unfold step. rewrite Hpc. cbn [fst].
+    pose proof Hloc as L. unfold lokN in L. rewrite Hpc in L. destruct L as (Hr & Hf & Ho & Hz).
+    assert (Hh : held (thr s t) = opt (cur (thr s t))) by (unfold held; rewrite Hpc; reflexivity).
+    mkN N own s t I0 Ht; [reflexivity|exact Hts|reflexivity| |exact Hfrom| | |exact Hprog|].
+    - oth_tac I0 Ht ltac:(fun u Hne Hu => apply (keeps_spawn N own s t u f 2%Z I0 Ht Hu Hne Hpc); lia).
+    - intros _. apply Hto'. rewrite Hpc; discriminate.
+    - intros g. fibN Hfib Ht Hh g.
+    - unfold lokN, runN in *; cbn. rewrite upd_same. split; [lia|].
+      destruct Hr as [Hr|Hr]; auto. right. rewrite upd_other; auto. intros E; rewrite E in *; lia.
+  Qed.
+
+  Lemma own_dq : 1 <= sfrom s t <= 2 * nthr s /\ 1 <= 4 * t + 3 - sfrom s t <= 2 * nthr s /\
+                 sfrom s t <> 4 * t + 3 - sfrom s t.
+  Proof. destruct Hfrom; lia. Qed.
+
+  Lemma stepN_PSched f k : pc (thr s t) = PSched f k -> InvN N own (fst (step s t)).
+  Proof.
+    intros Hpc. unfold step. rewrite Hpc. rewrite Hts.
+    assert (Hto : sto s t = 4 * t + 3 - sfrom s t) by (apply Hto'; rewrite Hpc; discriminate).
+    rewrite Hto. pose proof own_dq as (D1 & D2 & D3).
+    pose proof Hloc as L. unfold lokN in L. rewrite Hpc in L. destruct L as (Hf2 & Hk).
+    set (d := 4 * t + 3 - sfrom s t) in *.
+    assert (Hfin : forall c v h, runN s c -> held (thr s t) = h -> cnt h f = 1 ->
+              (forall g, g <> f -> cnt h g = cnt (opt c) g) -> cnt (opt c) f = 0 ->
+              InvN N own (set_thr (set_dq s d (f :: dq s d)) t (snd (finish t (thr s t) c v)))).
+    { intros c v h Hr Hh Hhf Hhg Hcf.
+      destruct (finish_specN N own (set_dq s d (f :: dq s d)) t (thr s t) c v Hprog Hr) as (Hc & Hp' & Hl & Hh' & Hs).
+      mkN N own s t I0 Ht; [reflexivity|exact Hts|reflexivity| |exact Hfrom| | |exact Hp'|exact Hl].
+      - oth_tac I0 Ht ltac:(fun u Hne Hu => apply (keeps_same N own s u (thr s u)); apply (m_loc N own s I0 u Hu)).
+      - intros _. exact Hto.
+      - intros g. specialize (Hhg g). fibN2 Hfib Ht Hh Hh' g. }
+    assert (Hone : cnt (held (thr s t)) f <= 1).
+    { pose proof (Hcn_term (thr s) (nthr s) t f Ht). pose proof (n_once N s f (Hfib f)). lia. }
+    assert (Hhd : held (thr s t) = match k with KRequeue nf => nf :: opt (cur (thr s t)) | _ => f :: opt (cur (thr s t)) end).
+    { unfold held. rewrite Hpc. reflexivity. }
+    destruct k; try contradiction; rewrite fst_let_finish.
+    - apply (Hfin _ _ _ Hk Hhd); rewrite Hhd in Hone; cbn [cnt] in *; rewrite ?Nat.eqb_refl in *; try lia.
+      intros g Hg. rewrite (proj2 (Nat.eqb_neq f g)) by auto. lia.
+    - destruct Hk as (Hc & Hc0 & Hnf). rewrite Hc in *.
+      assert (Hnf0 : nf <> 0).
+      { intros E. pose proof (n_range N s nf (Hfib nf)). subst nf. lia. }
+      assert (Hne : nf <> f).
+      { intros E. rewrite Hhd in Hone. cbn [cnt] in Hone. rewrite cnt_opt, E, !Nat.eqb_refl in Hone.
+        destruct (Nat.eqb_spec f 0); lia. }
+      apply (Hfin nf _ _ (or_intror Hnf) Hhd); cbn [cnt]; rewrite ?cnt_opt.
+      + rewrite Nat.eqb_refl. destruct (Nat.eqb_spec nf f); destruct (Nat.eqb_spec f 0); lia.
+      + intros g Hg. rewrite !cnt_opt. destruct (Nat.eqb_spec nf g); destruct (Nat.eqb_spec f 0); destruct (Nat.eqb_spec f g);
+          destruct (Nat.eqb_spec nf 0); try lia; congruence.
+      + destruct (Nat.eqb_spec nf 0); destruct (Nat.eqb_spec nf f); lia.
+    - apply (Hfin _ _ _ Hk Hhd); rewrite Hhd in Hone; cbn [cnt] in *; rewrite ?Nat.eqb_refl in *; try lia.
+      intros g Hg. rewrite (proj2 (Nat.eqb_neq f g)) by auto. lia.
+  Qed.
+
+  (* thread t writes v to a fiber z that it holds and moves to pc P (same held fibers) *)
+  Lemma inv_write_held z v T' :
+    In z (held (thr s t)) -> (v = 1 \/ v = 2 \/ v = 3 \/ v = 5)%Z ->
+    held T' = held (thr s t) ->
+    (forall k tmp, pc T' <> PN5 k tmp) -> (forall k tmp, pc (thr s t) <> PN5 k tmp) ->
+    prog_okN N own t (prog T') -> lokN N own (set_fs s z v) t T' ->
+    InvN N own (set_thr (set_fs s z v) t T').
+  Proof.
+    intros Hz Hv Hh Hn5 Hn5' Hp Hl.
+    mkN N own s t I0 Ht; [reflexivity|exact Hts|reflexivity| |exact Hfrom| | |exact Hp|exact Hl].
+    - oth_tac I0 Ht ltac:(fun u Hne Hu => apply (keeps_held N own s t u z v I0 Ht Hu Hne Hz); lia).
+    - intros _. apply Hto'; auto.
+    - intros g. pose proof (Hfib g) as []. pose proof (Hfib z) as [].
+      apply cnt_In in Hz. pose proof (Hcn_term (thr s) (nthr s) t z Ht).
+      pose proof (Hcn_upd (thr s) (nthr s) t T' g Ht) as E. rewrite Hh in E.
+      constructor; rewrite ?wqz_set_thr, ?wqz_set_fs; cbn [thr nthr dq fstt set_thr set_fs];
+        unfold upd; destruct (Nat.eqb_spec g z); try subst g; try lia.
+  Qed.
+
+  Lemma stepN_PBlockW : pc (thr s t) = PBlockW -> InvN N own (fst (step s t)).
+  Proof.
+    intros Hpc. unfold step. rewrite Hpc. cbn [fst].
+    pose proof Hloc as L. unfold lokN in L. rewrite Hpc in L. destruct L as (Hc & H13).
+    assert (Hin : In (cur (thr s t)) (held (thr s t))).
+    { unfold held. rewrite Hpc. destruct (cur (thr s t)); [congruence|left; reflexivity]. }
+    apply inv_write_held; auto; try (rewrite Hpc; discriminate); try discriminate.
+    - unfold held. rewrite Hpc. reflexivity.
+    - unfold lokN; cbn. rewrite upd_same. auto.
+  Qed.
+
+  Lemma stepN_PYRead : pc (thr s t) = PYRead -> InvN N own (fst (step s t)).
+  Proof.
+    intros Hpc. unfold step. rewrite Hpc. cbn [fst].
+    pose proof Hloc as L. unfold lokN in L. rewrite Hpc in L. destruct L as (Hc & H13).
+    apply inv_thr_only; auto; try (rewrite Hpc; discriminate); try discriminate.
+    - unfold held. rewrite Hpc. reflexivity.
+    - unfold lokN, kokN; cbn. intuition lia.
+  Qed.
+
+  Lemma stepN_PN1 k : pc (thr s t) = PN1 k -> InvN N own (fst (step s t)).
+  Proof.
+    intros Hpc. unfold step. rewrite Hpc.
+    pose proof Hloc as L. unfold lokN in L. rewrite Hpc in L.
+    destruct (dq s (sfrom s t)) eqn:EF; cbn [fst];
+      (apply inv_thr_only; auto; try (rewrite Hpc; discriminate); try discriminate;
+       [unfold held; rewrite Hpc; reflexivity|unfold lokN; cbn; auto]).
+  Qed.
+
+  Lemma stepN_PN2 k : pc (thr s t) = PN2 k -> InvN N own (fst (step s t)).
+  Proof.
+    intros Hpc. unfold step. rewrite Hpc. cbn [fst].
+    pose proof Hloc as L. unfold lokN in L. rewrite Hpc in L.
+    apply inv_thr_only; auto; try (rewrite Hpc; discriminate); try discriminate.
+    - unfold held. rewrite Hpc. reflexivity.
+    - unfold lokN; cbn. tauto.
+  Qed.
+
+  Lemma stepN_PN3 k tmp : pc (thr s t) = PN3 k tmp -> InvN N own (fst (step s t)).
+  Proof.
+    intros Hpc. unfold step. rewrite Hpc. cbn [fst].
+    pose proof Hloc as L. unfold lokN in L. rewrite Hpc in L.
+    assert (Hto : sto s t = 4 * t + 3 - sfrom s t) by (apply Hto'; rewrite Hpc; discriminate).
+    apply inv_thr_only; auto; try (rewrite Hpc; discriminate); try discriminate.
+    - unfold held. rewrite Hpc. reflexivity.
+    - unfold lokN; cbn. tauto.
+  Qed.
+End StepN.
